@@ -269,9 +269,9 @@ def r16_8(ctx: Ctx, rule: str = "R16.8") -> None:
         tn = next((x for x in cfg.nodes if x.kind == "test" and any(y is t for y in ast.walk(x.ast))), None)
         if tn is not None:
             te = next(e for e in tn.succ if e.kind == "true")
-            ok = any(n.kind == "stmt" and isinstance(n.ast, ast.Return) and isinstance(n.ast.value, ast.Constant) and n.ast.value.value is False for n in cfg.reachable_from(te)) \
-                and not any(n.kind == "stmt" and isinstance(n.ast, ast.Return) and isinstance(n.ast.value, ast.Constant) and n.ast.value.value is True and cfg.dominates(te, n)
-                            for n in cfg.reachable_from(te))
+            # EVERY way on from the edge 'the name holds a NUL' ends in `return False` (a later refusal for another reason does not count)
+            falses = [n for n in cfg.nodes if n.kind == "stmt" and isinstance(n.ast, ast.Return) and isinstance(n.ast.value, ast.Constant) and n.ast.value.value is False]
+            ok = bool(falses) and cfg.every_path_to_exit_passes(te, falses)
     ctx.check(ok, rule, c, c.node, "check_archive_path refuses names with an embedded NUL",
               "check_archive_path accepts a name that contains U+0000: writestr(data, 'a\\0b') stores a Names record with more strings than members, every later member gets "
               "the wrong name and py7zr's own reader loses the last one", construct="NUL in writestr name")
